@@ -1024,11 +1024,11 @@ func checkPrioStop(vd *Verdict, v *prioView) {
 	gracefulPending := v.gracefulCall >= 0 && v.gracefulCall < at && (v.gracefulRet < 0 || v.gracefulRet > at)
 
 	facts := map[string]any{
-		"all_handlers_busy":       inflight >= sc.H,
-		"graceful_pending":        gracefulPending,
-		"input_open":              openInput,
-		"after_cancel":            v.cancelSeq >= 0 && (v.stopCall < 0 || v.cancelSeq < v.stopCall),
-		"livelock":                v.res.Livelock,
+		"all_handlers_busy": inflight >= sc.H,
+		"graceful_pending":  gracefulPending,
+		"input_open":        openInput,
+		"after_cancel":      v.cancelSeq >= 0 && (v.stopCall < 0 || v.cancelSeq < v.stopCall),
+		"livelock":          v.res.Livelock,
 	}
 
 	if inflight >= sc.H {
